@@ -555,8 +555,17 @@ def r9_handle_provenance(P, rep, ctx):
         if fi.module.name != O or not isinstance(fi.node, (ast.FunctionDef, ast.AsyncFunctionDef)):
             continue
         f = None
+        # classes picked from a module-level table: for raw_type, overlay_type in _TABLE: ... overlay_type(..)
+        via_table = set()
+        for st in walk_local(fi.node):
+            if isinstance(st, ast.For) and isinstance(st.iter, ast.Name) and isinstance(st.target, ast.Tuple):
+                tbl = fi.module.assigns.get(st.iter.id)
+                if isinstance(tbl, (ast.Tuple, ast.List)) and all(isinstance(r_, (ast.Tuple, ast.List)) and len(r_.elts) == len(st.target.elts) for r_ in tbl.elts):
+                    for k_, tv_ in enumerate(st.target.elts):
+                        if isinstance(tv_, ast.Name) and tbl.elts and all(isinstance(r_.elts[k_], ast.Name) and r_.elts[k_].id in NODE_CLASSES_ for r_ in tbl.elts):
+                            via_table.add(tv_.id)
         for c in local_calls(fi.node):
-            if not (isinstance(c.func, ast.Name) and c.func.id in NODE_CLASSES_):
+            if not (isinstance(c.func, ast.Name) and (c.func.id in NODE_CLASSES_ or c.func.id in via_table)):
                 continue
             n += 1
             f = f or F(ctx, fi)
@@ -581,7 +590,7 @@ def r9_handle_provenance(P, rep, ctx):
                 how, ok = f"path {path_}, bound {idx_}", False
             rep.check(ok, "C01.R9", fi.qual, f"handle {norm(c)[:60]}: {how}", fi.loc(c), construct=f"handle construction {norm(c)[:80]}",
                       message=f"{fi.qual} builds a node handle for `{path_}` with the bound `{idx_}` that was not resolved for that path (not through _children / _get_child): the view through this handle ignores what older or newer containers say about the node, e.g. a parent obtained this way hides siblings from older containers")
-    if n < 6:
+    if n < 5:
         raise AnalysisError(f"C01.R9: only {n} node handle constructions found in overlay.py")
 
 
